@@ -147,6 +147,19 @@ SelfShapes == {
   "local self = 4 local o = {v = 1} function o.get() return self end ext1(o.get())",
   "local o = {v = 1, p = {v = 2}} function o.p:get(...) local self2 = self return self2.v, ... end ext1(o.p:get(9))",
   "local x, y = 1, 2 local y, x = x, y ext1(x, y)",
+  \* one declaration repeating a name: the LAST one is visible (rules that rebuild the declaration must keep it so)
+  "local a, b, a = ext1(1), 2 ext1(a)",
+  "local a, b, a = ext1(1), 2, 3 ext1(a)",
+  "local a, b, a = ext1(1), ext1(2), ext1(3) ext1(a)",
+  "local a, a = ext1(1) ext1(a)",
+  "local a, b, a = ext2() ext1(a)",
+  "local a, u, a, v = 1, ext1(2), 3 ext1(a, v)",
+  \* the placeholder name `_` used by the program itself while a rule keeps side effects in `local _ = ...`
+  "local _ = 5 local u = t.x ext1(_)",
+  "local _ = 5 local u, v = t.x, ext1(1) ext1(_)",
+  "local function g(_) local u = t.x return _ end ext1(g(6))",
+  "for _ = 1, 1 do local u = t .. 1 ext1(_) end",
+  "local _ = ext1(1) do local u = t.x end ext1(_)",
   "local x = 1 local function g() return x end local function h(x) return g() + x end ext1(h(5))",
   "local x = 1 local function g() x = x + 1 return x end local x = g() ext1(x, g())" }
 ScopeShapes(tier) == UNION {BinderShapes(u) : u \in OuterUses(tier)} \cup SelfShapes
